@@ -422,6 +422,7 @@ def gen_program(rng, w, client, nmain=1, include_prob=0.12, tokens_ok=True, bad=
     names_abs = ['one.conf', 'two.conf', 'three.conf'][:rng.randint(1, 3)]
     inc_targets = ([os.path.join(sshdir, n) for n in names_rel] +
                    [os.path.join(sshdir, 'conf.d', n) for n in names_confd] +
+                   [os.path.join(sshdir, 'conf', 'a.conf')] +      # "conf" / "conf.d": Path order and strcmp order differ
                    [os.path.join(absd, n) for n in names_abs])
     inc_patterns = ([rel + '/inc_a', rel + '/inc_b', rel + '/inc_?', rel + '/conf.d/*.conf', rel + '/conf.d/*',
                      rel + '/conf.d/??-*.conf', rel + '/nomatch*', '~/.ssh/' + rel + '/inc_a',
